@@ -257,6 +257,16 @@ impl<B: Sym> HuffMachine<B> {
             items.push(vec![*last; 3]);
             // the rarest symbol has the all-ones code: at least a whole byte of ones
             items.push(vec![*last; 9]);
+            // a one bit, k zero bits, then the deepest code: the deepest code at every bit offset with a
+            // set bit in the pending partial byte
+            if reps.len() > 2 {
+                for k in 0..=7 {
+                    let mut v = vec![reps[1]];
+                    v.extend(std::iter::repeat(reps[0]).take(k));
+                    v.push(*last);
+                    items.push(v);
+                }
+            }
             if reps.len() > 1 {
                 let mut v = vec![reps[0], *last, reps[0], *last, reps[0]];
                 v.push(reps[1]);
